@@ -19,13 +19,14 @@ type vIn struct {
 	total     int
 }
 
-// vInfos: n candidate nodes with distinct names, capacity 1..MaxInt (the
-// "unlimited" sentinel included), existing count, usage and rate on the grid.
+// vInfos: n candidate nodes with distinct names, capacity 0..MaxInt (the
+// "unlimited" sentinel included; a candidate without remaining capacity must
+// simply get nothing), existing count, usage and rate on the grid.
 func vInfos(n int) *vIn {
 	in := &vIn{}
 	total := 0
 	for i := 0; i < n; i++ {
-		c := vInt("cap_"+vNames[i], 1, math.MaxInt)
+		c := vInt("cap_"+vNames[i], 0, math.MaxInt)
 		k := vInt("count_"+vNames[i], 0, vMaxCount)
 		u := vGrid("usage_"+vNames[i], 10, 0, 1<<20)
 		r := vGrid("rate_"+vNames[i], 10, 0, 1<<20)
